@@ -5,7 +5,6 @@ from common import *
 import joinfam
 
 LEVEL = "model_checking"
-READY = False  # flipped when the Layer-B model checks are wired in
 MANIFEST = dict(
     category="model_checking",
     text="Layer A in TLA+: a sketch is the position-wise join (min for SuperMinHash, max for SetSketch) of the single-item "
